@@ -26,7 +26,7 @@ func vPerms(k int) [][]int {
 func VerifC08SortTags() {
 	k := vBound("c08.k", 2)
 	flat := vChoice("flat", 2) == 1
-	names := []string{"a", "b", "c"}
+	names := [][]string{{"a", "b", "c"}, {"method:GET", "method:get", "method:Get"}, {"k:v", "k:v ", "k:"}}[vChoice("names", 3)]
 	ts := make([]*Tag, k)
 	for i := 0; i < k; i++ {
 		n := strconv.Itoa(i)
